@@ -2,6 +2,8 @@ SPECIFICATION Spec
 CONSTANT Size = 6
 CONSTANT Big = 1000
 CONSTANT Validated = TRUE
+CONSTANT SumValidated = TRUE
+CONSTANT Rounds = 1
 INVARIANT Proportional
 PROPERTY Terminates
 CHECK_DEADLOCK FALSE
